@@ -32,7 +32,7 @@ contract('IOManager._read_bytes_from_device',
                   ('C11', 'duration', 'implies(%s, G.now - old(G.now) <= %s + %s + %s)' % (TNN, R, T, CPU)),
                   ('C11', 'clock-monotone', 'G.now >= old(G.now) and G.cpu >= old(G.cpu)'),
                   ('C06,C12', 'locks-unchanged', 'G.held_transport == old(G.held_transport)')],
-         raises={'AdbTimeoutError': [('C11,C03', 'timeout-only-after-deadline', 'G.now - old(G.now) > adb_info.read_timeout_s'),
+         raises={'AdbTimeoutError': [('C11,C03,C01,C08,C09', 'timeout-only-after-deadline', 'G.now - old(G.now) > adb_info.read_timeout_s'),
                                      ('C11', 'duration', 'implies(%s, G.now - old(G.now) <= %s + %s + %s)' % (TNN, R, T, CPU)),
                                      ('C03,C01,C08,C09', 'partial-progress', 'G.rpos >= old(G.rpos) and G.rpos < old(G.rpos) + length and G.rpos <= len(G.dev)'),
                                      'G.now >= old(G.now) and G.cpu >= old(G.cpu)'],
@@ -74,14 +74,15 @@ contract('IOManager._read_packet_from_device',
          raises={'InvalidCommandError': [('C03,C01,C08,C09', 'unknown-command-only', 'unle32(G.dev[old(G.rpos):old(G.rpos) + 4]) not in WIRE_TO_ID'),
                                          'G.now >= old(G.now) and G.cpu >= old(G.cpu)', 'G.rpos >= old(G.rpos) and G.rpos <= len(G.dev)',
                                          ('C11', 'duration', 'implies(%s, G.now - old(G.now) <= 2 * (%s + %s) + %s)' % (TNN, R, T, CPU))],
-                 'InvalidChecksumError': [('C03,C01,C08,C09', 'mismatch-only',
+                 'InvalidChecksumError': [('C03,C01,C08,C09', 'only-after-the-command-word-was-accepted', 'unle32(G.dev[old(G.rpos):old(G.rpos) + 4]) in WIRE_TO_ID'),
+                                          ('C03,C01,C08,C09', 'mismatch-only',
                                            'unle32(G.dev[old(G.rpos) + 12:old(G.rpos) + 16]) > 0 and '
                                            'bsum(G.dev[old(G.rpos) + 24:old(G.rpos) + 24 + unle32(G.dev[old(G.rpos) + 12:old(G.rpos) + 16])]) % 2**32'
                                            ' != unle32(G.dev[old(G.rpos) + 16:old(G.rpos) + 20])'),
                                           'G.now >= old(G.now) and G.cpu >= old(G.cpu)', 'G.rpos >= old(G.rpos) and G.rpos <= len(G.dev)',
                                           ('C11', 'duration', 'implies(%s, G.now - old(G.now) <= 2 * (%s + %s) + %s)' % (TNN, R, T, CPU))],
                  'AdbTimeoutError': [('C11', 'duration', 'implies(%s, G.now - old(G.now) <= 2 * (%s + %s) + %s)' % (TNN, R, T, CPU)),
-                                     ('C11', 'timeout-only-after-deadline', 'G.now - old(G.now) > adb_info.read_timeout_s'),
+                                     ('C11,C03,C01,C08,C09', 'timeout-only-after-deadline', 'G.now - old(G.now) > adb_info.read_timeout_s'),
                                      'G.now >= old(G.now) and G.cpu >= old(G.cpu)', 'G.rpos >= old(G.rpos) and G.rpos <= len(G.dev)'],
                  '*': [('C11', 'duration', 'implies(%s, G.now - old(G.now) <= 2 * (%s + %s) + %s)' % (TNN, R, T, CPU)),
                        'G.now >= old(G.now) and G.cpu >= old(G.cpu)', 'G.rpos >= old(G.rpos) and G.rpos <= len(G.dev)']},
@@ -196,7 +197,8 @@ contract('IOManager.read',
                   ('C11', 'duration', DUR3),
                   ('C11,C06', 'monotone', MONO)],
          raises={'AdbTimeoutError': [('C06,C12', 'locks-released', UNLOCKED), ('C11', 'duration', DUR3), MONO,
-                                     ('C11', 'timeout-only-after-deadline', 'G.now - old(G.now) > adb_info.read_timeout_s')],
+                                     ('C11', 'timeout-only-after-deadline', 'G.now - old(G.now) > adb_info.read_timeout_s'),
+                                     ('C06,C01', 'gives-up-only-when-nothing-is-parked-for-this-stream', 'not ' + PEND(STORE))],
                  'InvalidCommandError': [('C06,C12', 'locks-released', UNLOCKED), ('C11', 'duration', DUR3), MONO],
                  'InvalidChecksumError': [('C06,C12', 'locks-released', UNLOCKED), ('C11', 'duration', DUR3), MONO],
                  '*': [('C06,C12', 'locks-released', UNLOCKED), ('C11', 'duration', DUR3), MONO]},
@@ -259,7 +261,7 @@ contract('IOManager._read_expected_packet_from_device',
          real=real('_read_expected_packet_from_device'),
          params={'self': 'obj:IOManager', 'expected_cmds': 'cmdset', 'adb_info': 'obj:AdbInfo'},
          returns='tuple[bytes,int,int,bytes]',
-         props=['C05', 'C11', 'C12', 'C06'],
+         props=['C05', 'C11', 'C12', 'C06', 'C03'],
          requires=['G.rpos >= 0 and G.rpos <= len(G.dev)', ('C06', 'transport-owned', 'G.held_transport')],
          modifies=['G.rpos', 'G.now', 'G.cpu', 'G.di'],
          ghost_exit=[('G.di', 'store(G.di, %s, G.di[%s] + 1)' % (HS, HS))],
